@@ -85,12 +85,13 @@ type StoreWrite struct {
 // Store decorates a metadata.Store: every call is a scheduling point with
 // latency and optional injected error, and every mutation is logged.
 type Store struct {
-	Inner metadata.Store
-	Name  string
-	LatUs int64
-	mu    simrt.QuietMutex
-	Log   []StoreWrite
-	Tags  map[string]string // task name prefix -> tag
+	Inner   metadata.Store
+	Name    string
+	LatUs   int64
+	mu      simrt.QuietMutex
+	Log     []StoreWrite
+	Refused []StoreWrite      // mutations refused by an injected failure (not applied)
+	Tags    map[string]string // task name prefix -> tag
 }
 
 func NewStore(inner metadata.Store, latUs int64) *Store {
@@ -134,6 +135,17 @@ func (s *Store) call(ctx context.Context, method, key string, mut bool, val int6
 		return context.Canceled
 	case strings.HasSuffix(out.Fault, ".slow"):
 		return err
+	}
+	if mut {
+		// a mutation that was refused by injection (callers that reason about "the store is behind
+		// because a write failed" need to know which key and when)
+		w := StoreWrite{Task: simrt.TaskName(), Method: method, Key: key, Val: val, Err: true}
+		if sim := simrt.Current(); sim != nil {
+			w.Step = sim.Step()
+		}
+		s.mu.Lock()
+		s.Refused = append(s.Refused, w)
+		s.mu.Unlock()
 	}
 	return &StoreInjected{Kind: out.Fault, Method: method}
 }
@@ -205,3 +217,7 @@ func (s *Store) CreateTopic(ctx context.Context, spec metadata.TopicSpec) (r *pr
 func (s *Store) DeleteTopic(ctx context.Context, name string) error {
 	return s.call(ctx, "DeleteTopic", name, true, 0, func() error { return s.Inner.DeleteTopic(ctx, name) })
 }
+
+// Lock / Unlock give harness code a consistent view of Log and Refused.
+func (s *Store) Lock()   { s.mu.Lock() }
+func (s *Store) Unlock() { s.mu.Unlock() }
